@@ -182,6 +182,24 @@ def concurrent_sweep_stale_requeue(sig, ctx) -> bool:
     return False
 
 
+def region_strands_workflow(sig, ctx) -> bool:
+    """A CancelRegion was handled, every stage of the region that was not complete is CANCELED, nothing is queued, no
+    stage is RUNNING / SUSPENDED / PAUSED and the workflow is still RUNNING (nobody queued CompleteWorkflow)."""
+    if ctx["formula"] not in sig["formulas"]:
+        return False
+    prog = ctx["program"]
+    region = {s["ref"] for s in prog["stages"] if s.get("region")}
+    if not region:
+        return False
+    s = _st(ctx)
+    st = s.get("st") or {}
+    if (s.get("wf") or {}).get("status") != "RUNNING" or s.get("q"):
+        return False
+    if any(v.get("status") in ("RUNNING", "SUSPENDED", "PAUSED") for v in st.values()):
+        return False
+    return any(st.get(r, {}).get("status") == "CANCELED" for r in region)
+
+
 def late_branch_kill(sig, ctx) -> bool:
     """A fired first-of / quorum join stage marked TERMINAL by the wait-retry exhaustion of the
     StartStage its late branch sent."""
@@ -231,5 +249,6 @@ PREDICATES = {
     "jump_after_cancel": jump_after_cancel,
     "recovery_blocked_by_stale_message": recovery_blocked_by_stale_message,
     "concurrent_sweep_stale_requeue": concurrent_sweep_stale_requeue,
+    "region_strands_workflow": region_strands_workflow,
     "always": always,
 }
